@@ -1,4 +1,4 @@
-"""C14 -- rope's view of source text agrees with the tokenizer (RCA rules R14.1-R14.19)."""
+"""C14 -- rope's view of source text agrees with the tokenizer (RCA rules R14.1-R14.20)."""
 from __future__ import annotations
 
 import ast
@@ -28,6 +28,7 @@ EXPLANATION += ' R14.16(c): after leaving an f-string the scan still looks the p
 EXPLANATION += " R14.17: identifier characters are the interpreter's.  R14.18: an escaped token is skipped one character at a time where the token pattern has multi-character alternatives."
 EXPLANATION += ' R14.16: a whole-text bracket scan over the simplified text (where f-strings survive) reads the string regions; the backward bracket searches of the word finder step over strings through a quote-testing method.'
 EXPLANATION += " R14.19: in the anchored modules and the shared text utilities no source text is cut with str.splitlines() (it breaks at form feed, \x1c-\x1e, \x85, U+2028/9; rope's and the ast's line numbers count \n only)."
+EXPLANATION += " R14.20: every store into the in-string state of the logical-line scanner stands under the test that the token at hand is a quote."
 ASSUMPTIONS = ["tokenize's own Comment pattern and _all_string_prefixes() are the oracle for the token language"]
 
 Lin = Dict[str, int]  # linear form: symbol -> coefficient, "" -> constant
@@ -236,6 +237,26 @@ def _check_body(ctx, res) -> None:
                 "the rest of the line (the closing quote included) is skipped or the bracket depth is wrong, and logical lines disagree with the tokenizer",
                 function=al.qualname)
     res.floor("R14.13", "comment/bracket actions in _analyze_line", n13, 3)
+
+    # ---- R14.20 only a quote opens or closes a string: every store into the in-string state of the logical-line scanner stands under the
+    # test that the token at hand is a quote.  (A "short strings end with their line" reset hangs on what the scanner knows at the end
+    # of the line -- the last special character it SAW, also one inside the string -- and ends a backslash-continued string early.)
+    n20 = 0
+    from . import common as _common20
+    icfg = CFG(_common20.inlined(idx, al))  # the handling of a quote may be a private step of the scanner: read in place
+    for nd in icfg.nodes:
+        st = nd.ast
+        if nd.kind != "stmt" or not (isinstance(st, ast.Assign) and any(is_self_attr(t, "in_string") for t in st.targets)):
+            continue
+        n20 += 1
+        quote_test = any(pol and isinstance(t, ast.Compare) and len(t.ops) == 1 and isinstance(t.ops[0], (ast.In, ast.Eq)) and any(
+            isinstance(c, ast.Constant) and isinstance(c.value, str) and c.value and set(c.value) <= set("'\"") for c in ast.walk(t.comparators[0])) for t, pol in icfg.guards(nd.id))
+        res.add("R14.20", f"_analyze_line|string-state-changes-at-quotes-only#{n20}", quote_test, f"{al.unit.rel}:{st.lineno}",
+                "the in-string state is stored under the test that the token is a quote" if quote_test else
+                f"`{ast.unparse(st)}` changes the in-string state where no quote was matched: a one-quote string continued with a backslash (`'usage: prog  # see issue \\` / "
+                "`for the details'`) is ended at the line break, the next physical line is scanned as code, and the logical lines disagree with the tokenizer's statements",
+                function=al.qualname)
+    res.floor("R14.20", "stores into the in-string state of the logical-line scanner", n20, 2)
 
     # ---- R14.15 while a logical line is OPEN every physical line is analysed, blank ones included: a blank line ends a
     # backslash continuation (`x = 1 \\` + blank line + next statement are two statements for the tokenizer).  Blank
